@@ -92,6 +92,19 @@ func firstDiff(a, b []string) string {
 	return ""
 }
 
+// diffAfterAbort: the two transcripts agree up to and including the client's own abort event.
+func diffAfterAbort(a, b []string) bool {
+	for i := 0; i < len(a) && i < len(b); i++ {
+		if a[i] != b[i] {
+			return false
+		}
+		if a[i] == "x" || a[i] == "d" {
+			return true
+		}
+	}
+	return false
+}
+
 func evKind(e string) string {
 	switch {
 	case e == "ok" || e == "serr":
@@ -137,8 +150,15 @@ func checkCase(w *world, mon *lib.Monitor, c scase) (ow, og outcome) {
 	}
 	mon.Eval(c.key(), true, map[string]any{"case": c, "wrapper": ow.text(), "grpc": og.text()})
 	mon.Count("shape:" + c.Shape)
+	if c.Pass != "" {
+		mon.Count("pass:" + c.Pass)
+	}
 	if d := firstDiff(ow.client, og.client); d != "" {
-		mon.Violate("C13/"+c.Shape+"/client-transcript/"+d,
+		site := "client-transcript"
+		if diffAfterAbort(ow.client, og.client) {
+			site = "after-abort" // the first difference lies behind the client's own cancel / deadline
+		}
+		mon.Violate("C13/"+c.Shape+"/"+site+"/"+d,
 			"a client of the wrapped server observes something else than over a real gRPC connection (wrapper-vs-grpc, first difference)",
 			c, og.text(), ow.text())
 	} else if ow.server != og.server {
@@ -151,7 +171,7 @@ func checkCase(w *world, mon *lib.Monitor, c scase) (ow, og outcome) {
 			"goroutines above the baseline after the wrapped call finished or was cancelled",
 			c, "0", fmt.Sprint(ow.leak))
 	}
-	if !c.Reuse {
+	if !c.Reuse && c.Pass == "" {
 		checkCopy(mon, c, ow)
 	}
 	return
@@ -212,11 +232,11 @@ func mutate(m proto.Message) {
 
 func runScripts(f lib.Flags, res *lib.Result, w *world, drv *lib.Driver) {
 	tieW := res.Tie("wrap-model", "K1",
-		"script pairs for unary/unaryS/sstream/cstream/bidi generated in lockstep from one PRNG (0-5 messages, SetHeader/SendHeader/SetTrailer at each position, status/plain error/OK, half-close, cancel and deadline with the handler blocked), kept when the Lean predicate WFScripts holds; Lean Wrap.run transcript = transcript of the real wrap.ServerToClient connection; non-trivial = distinct script pair")
+		"script pairs for unary/unaryS/sstream/cstream/bidi generated in lockstep from one PRNG (0-5 messages, SetHeader/SendHeader/SetTrailer at each position, status/plain error/OK, half-close, cancel and deadline with the handler blocked, Header() reads after the client's own cancel — at once and after the handler has unwound and returned — when no header had been sent, Invoke cancelled / timed out while the handler is parked), kept when the Lean predicate WFScripts holds; a quarter of the non-reuse pairs run with a pass-through party (client receiving into emptypb.Empty / another type of the same layout, requests and responses of a wider dynamic type with a field the receiver does not declare; messages read back from their re-encoding: the transcript must be the model's); Lean Wrap.run transcript = transcript of the real wrap.ServerToClient connection; non-trivial = distinct script pair")
 	tieG := res.Tie("grpc-model", "K1",
 		"same script pairs; Lean GrpcRef.run transcript = transcript of a real gRPC client/server over bufconn running the same scripted TestApi server")
 	mon := res.Monitor("wrapper-vs-grpc",
-		"the property itself on the real code: for every generated script pair the client transcript (send results, messages, terminal code+message or cancelled/deadline class, user header and trailer metadata) and the handler's view are equal between wrap.ServerToClient and bufconn gRPC; goroutine count returns to the baseline after each wrapped call; request/response objects are distinct and unaffected by mutation of the other side's copy")
+		"the property itself on the real code: for every generated script pair the client transcript (send results, messages, terminal code+message or cancelled/deadline class, user header and trailer metadata) and the handler's view are equal between wrap.ServerToClient and bufconn gRPC, also when one side's message type is not the other's (fields the receiver's type does not declare survive the hand-over as they survive the wire) and for Header() after the client's own cancel; goroutine count returns to the baseline after each wrapped call; request/response objects are distinct and unaffected by mutation of the other side's copy")
 
 	r := lib.NewRand(f.Seed)
 	cases := basicCases()
